@@ -133,6 +133,13 @@ let handle kind a =
         | [c; u] -> pack (n_of_dec c) (n_of_dec u) | _ -> failwith "hseek target" in
       let (r, t) = hseek_run f fb ops v in
       Some (show_res dec_of_n r ^ "@" ^ show_res show_vp t)
+  | "hread" ->
+      let fb = bytes_of_hex a.(0) in
+      let ns = if a.(1) = "_" then [] else List.map n_of_dec (split_on ',' a.(1)) in
+      Some (match hread_run fb ns with
+            | [] -> "_"
+            | rows -> String.concat " " (List.map (fun (r, t) ->
+                show_res dec_of_n r ^ "@" ^ show_res show_vp t) rows))
   | "pp" ->
       let bits = if a.(0) = "_" then [] else List.init (String.length a.(0)) (fun i -> a.(0).[i] = '1') in
       Some (string_of_int (int_of_nat (partition_point_bs (fun b -> b) bits)))
